@@ -301,8 +301,8 @@ def discharge(ctx, body, p, ev, kind):
 def contextual_discharge(ctx, helper, site_bb, kind):
     fx = ctx.fx
     f = fx.fn(helper)
-    if f is None or f.get("vis") == "pub":
-        return None     # callers outside the crate cannot be enumerated
+    if f is None or f.get("reachable") or (f.get("vis") == "pub" and f.get("reachable") is None):
+        return None     # reachable from outside the crate: its callers cannot be enumerated
     callers = [k for k, g in fx.bodies() if k != helper and any(b["term"]["k"] == "call" and (b["term"]["func"]["path"] == helper or mir.norm_path(b["term"]["func"]["path"]) == helper) for b in g["blocks"])]
     if not callers:
         return None
